@@ -188,6 +188,168 @@ Proof.
   intros id. rewrite flushed_write_events, Hhi, appended_leaves. reflexivity.
 Qed.
 
+(* ---------------- WriteSyncer combinators: Sync reaches every sink ---------------- *)
+Section WsInd.
+  Variable P : ws -> Prop.
+  Hypothesis HSink : forall st c, P (SkSink st c).
+  Hypothesis HBuf : forall sz stopped b i, P i -> P (SkBuf sz stopped b i).
+  Hypothesis HLock : forall i, P i -> P (SkLock i).
+  Hypothesis HAdd : forall i, P i -> P (SkAddSync i).
+  Hypothesis HMulti : forall l, Forall P l -> P (SkMulti l).
+  Fixpoint ws_ind' (s : ws) : P s :=
+    match s with
+    | SkSink st c => HSink st c
+    | SkBuf sz stopped b i => HBuf sz stopped b i (ws_ind' i)
+    | SkLock i => HLock i (ws_ind' i)
+    | SkAddSync i => HAdd i (ws_ind' i)
+    | SkMulti l => HMulti l ((fix go (l : list ws) : Forall P l :=
+                                match l with [] => Forall_nil _ | x :: t => Forall_cons _ (ws_ind' x) (go t) end) l)
+    end.
+End WsInd.
+
+Lemma Forall_flat_map {A B} (Q : B -> Prop) (f : A -> list B) l :
+  Forall (fun x => Forall Q (f x)) l -> Forall Q (flat_map f l).
+Proof. induction 1 as [|x r Hx _ IH]; cbn [flat_map]; [constructor|apply Forall_app; auto]. Qed.
+Lemma Forall_flat_map_inv {A B} (Q : B -> Prop) (f : A -> list B) l :
+  Forall Q (flat_map f l) -> Forall (fun x => Forall Q (f x)) l.
+Proof.
+  induction l as [|x r IH]; cbn [flat_map]; intros H; [constructor|].
+  apply Forall_app in H. destruct H as [H1 H2]. constructor; auto.
+Qed.
+Lemma flat_map_map' {A B C} (f : A -> B) (g : B -> list C) l : flat_map g (map f l) = flat_map (fun x => g (f x)) l.
+Proof. induction l as [|x r IH]; cbn [map flat_map]; [reflexivity|rewrite IH; reflexivity]. Qed.
+Lemma map_flat_map' {A B C} (f : B -> C) (g : A -> list B) l : map f (flat_map g l) = flat_map (fun x => map f (g x)) l.
+Proof. induction l as [|x r IH]; cbn [map flat_map]; [reflexivity|rewrite map_app, IH; reflexivity]. Qed.
+Lemma flat_map_ext_Forall {A B} (f g : A -> list B) l : Forall (fun x => f x = g x) l -> flat_map f l = flat_map g l.
+Proof. induction 1 as [|x r Hx _ IH]; cbn [flat_map]; [reflexivity|rewrite Hx, IH; reflexivity]. Qed.
+
+(* Whatever the stack of combinators (any nesting of BufferedWriteSyncers of any Size, stopped or not, Lock,
+   AddSync, multi-WriteSyncers), whatever it holds in its buffers and whatever is written first: after a
+   Sync no sink below it has anything uncommitted *)
+Theorem sync_reaches_every_sink s : forall ns acc, Forall (eq acc) (sk_pending acc (sk_run ns true s)).
+Proof.
+  induction s as [st c|sz stopped b i IH|i IH|i IH|l IH] using ws_ind'; intros ns acc; cbn [sk_run sk_pending].
+  - constructor; [lia|constructor].
+  - replace (acc + 0) with acc by lia. apply IH.
+  - apply IH.
+  - apply IH.
+  - rewrite flat_map_map'. apply Forall_flat_map. induction IH as [|x r Hx _ IHr]; constructor; auto.
+Qed.
+
+(* the number of sinks below a stack never changes, and sk_pending lists one number per sink *)
+Lemma nsinks_run s : forall ns sy, sk_nsinks (sk_run ns sy s) = sk_nsinks s.
+Proof.
+  induction s as [st c|sz stopped b i IH|i IH|i IH|l IH] using ws_ind'; intros ns sy; cbn [sk_run sk_nsinks].
+  - destruct sy; reflexivity.
+  - destruct sy; cbn [sk_nsinks]; apply IH.
+  - apply IH.
+  - apply IH.
+  - induction IH as [|x r Hx _ IHr]; cbn [map fold_right]; [reflexivity|rewrite Hx, IHr; reflexivity].
+Qed.
+Lemma pending_length s : forall acc, length (sk_pending acc s) = sk_nsinks s.
+Proof.
+  induction s as [st c|sz stopped b i IH|i IH|i IH|l IH] using ws_ind'; intros acc; cbn [sk_pending sk_nsinks]; auto.
+  induction IH as [|x r Hx _ IHr]; cbn [flat_map fold_right]; [reflexivity|rewrite app_length, Hx, IHr; reflexivity].
+Qed.
+
+(* no stack loses or duplicates a byte: per sink, what is on the way to it plus what it has committed grows
+   by exactly what is written at the top, and a Sync leaves the total alone *)
+Lemma zsum_app a b : zsum (a ++ b) = zsum a + zsum b.
+Proof. unfold zsum. induction a as [|x r IH]; cbn [app fold_right]; lia. Qed.
+Lemma zsum_one x : zsum [x] = x.
+Proof. cbn. lia. Qed.
+Lemma buf_step_conserves cap stopped b out n :
+  fst (buf_step cap stopped (b, out) n) + zsum (snd (buf_step cap stopped (b, out) n)) = b + zsum out + n.
+Proof.
+  unfold buf_step.
+  repeat (match goal with |- context [if ?c then _ else _] => destruct c end; cbn beta iota zeta);
+    cbn [fst snd]; rewrite ?zsum_app, ?zsum_one; lia.
+Qed.
+Lemma buf_fold_conserves cap stopped ns : forall b out,
+  fst (fold_left (buf_step cap stopped) ns (b, out)) + zsum (snd (fold_left (buf_step cap stopped) ns (b, out))) =
+  b + zsum out + zsum ns.
+Proof.
+  induction ns as [|n r IH]; intros b out; cbn [fold_left fst snd].
+  - unfold zsum at 3. cbn [fold_right]. lia.
+  - pose proof (buf_step_conserves cap stopped b out n) as H.
+    destruct (buf_step cap stopped (b, out) n) as [b1 out1]. cbn [fst snd] in H. rewrite IH.
+    change (zsum (n :: r)) with (n + zsum r). lia.
+Qed.
+Lemma held_shift s : forall acc, sk_held acc s = map (Z.add acc) (sk_held 0 s).
+Proof.
+  induction s as [st c|sz stopped b i IH|i IH|i IH|l IH] using ws_ind'; intros acc; cbn [sk_held]; auto.
+  - cbn [map]. f_equal. lia.
+  - rewrite (IH (acc + b)), (IH (0 + b)), map_map. apply map_ext. intros x. lia.
+  - rewrite map_flat_map'. apply flat_map_ext_Forall.
+    induction IH as [|x r Hx _ IHr]; constructor; auto.
+Qed.
+Theorem stack_conserves s : forall ns sy acc,
+  sk_held acc (sk_run ns sy s) = map (Z.add (zsum ns)) (sk_held acc s).
+Proof.
+  induction s as [st c|sz stopped b i IH|i IH|i IH|l IH] using ws_ind'; intros ns sy acc; cbn [sk_run].
+  - destruct sy; cbn [sk_held map]; f_equal; lia.
+  - pose proof (buf_fold_conserves (eff_size sz) stopped ns b []) as H.
+    destruct (fold_left (buf_step (eff_size sz) stopped) ns (b, [])) as [b1 out]. cbn [fst snd] in H |- *.
+    change (zsum []) with 0 in H. destruct sy; cbn [sk_held]; rewrite IH.
+    + rewrite (held_shift i (acc + 0)), (held_shift i (acc + b)), !map_map. apply map_ext. intros x.
+      destruct (b1 =? 0) eqn:E; [apply Z.eqb_eq in E|rewrite zsum_app, zsum_one]; lia.
+    + rewrite (held_shift i (acc + b1)), (held_shift i (acc + b)), !map_map. apply map_ext. intros x. lia.
+  - cbn [sk_held]. apply IH.
+  - cbn [sk_held]. apply IH.
+  - cbn [sk_held]. rewrite flat_map_map', map_flat_map'. apply flat_map_ext_Forall.
+    induction IH as [|x r Hx _ IHr]; constructor; auto.
+Qed.
+(* so, once nothing is pending, every sink has committed everything that was ever written to the stack *)
+Theorem nothing_pending_all_committed s : forall acc k,
+  Forall (eq k) (sk_pending acc s) -> sk_held acc s = map (Z.add k) (sk_committed s).
+Proof.
+  induction s as [st c|sz stopped b i IH|i IH|i IH|l IH] using ws_ind'; intros acc k; cbn [sk_pending sk_held sk_committed]; auto.
+  - intros H. inversion H as [|? ? Hk _]. subst. reflexivity.
+  - intros H. apply Forall_flat_map_inv in H. rewrite map_flat_map'. apply flat_map_ext_Forall.
+    induction IH as [|x r Hx _ IHr]; [constructor|]. inversion H; subst. constructor; auto.
+Qed.
+
+(* the events of a call above error level on the stacks of the leaves: every leaf the entry was written to
+   ends with nothing pending, whatever its stack held before and however long the entries are *)
+Definition settled (s : ws) : Prop := Forall (eq 0) (sk_pending 0 s).
+Lemma run_write_events_settled l ws : (ErrorL <? l) = true -> forall lens st id,
+  settled (st id) \/ In id (leaves_of ws) -> settled (run_evs lens st (write_events all_io l ws) id).
+Proof.
+  intros Hhi. induction ws as [|[i|h] r IH]; intros lens st id H.
+  - cbn. destruct H as [H|[]]. exact H.
+  - change (write_events all_io l (WLeaf i :: r)) with ((EWrite i :: (if all_io i && (ErrorL <? l) then [ESync i] else [])) ++ write_events all_io l r).
+    unfold all_io at 1. rewrite Hhi. cbn [andb app run_evs]. apply IH.
+    unfold sk_upd at 1. destruct (Nat.eqb id i) eqn:E.
+    + left. apply sync_reaches_every_sink.
+    + unfold sk_upd. rewrite E. destruct H as [H|H]; [left; exact H|right].
+      change (leaves_of (WLeaf i :: r)) with (i :: leaves_of r) in H. destruct H as [H|H]; [|exact H].
+      subst i. rewrite Nat.eqb_refl in E. discriminate E.
+  - change (write_events all_io l (WHook h :: r)) with (EHook h :: write_events all_io l r). cbn [run_evs]. apply IH. exact H.
+Qed.
+Lemma run_evs_nsinks evs : forall lens st id, sk_nsinks (run_evs lens st evs id) = sk_nsinks (st id).
+Proof.
+  induction evs as [|[i|i|h] r IH]; intros lens st id; cbn [run_evs]; [reflexivity| | |apply IH];
+    rewrite IH; unfold sk_upd, sk_write, sk_sync; destruct (Nat.eqb id i) eqn:E; try reflexivity;
+    apply Nat.eqb_eq in E; subst; apply nsinks_run.
+Qed.
+
+(* before control is lost: whatever WriteSyncer combinators sit between the IO cores and their sinks, whatever
+   they held before the call and however long the encoded entry is, every sink below every core that accepted
+   the entry has committed everything that was ever written to it *)
+Theorem committed_first_thm w lg m l lens st :
+  In m methods -> can_log m l = true -> terminal lg l ->
+  let st' := run_evs lens st (fst (log_call w lg all_io (fam_of m) l)) in
+  forall id, In id (delivered w (lcore lg) l) ->
+    Forall (eq 0) (sk_pending 0 (st' id)) /\ map (Z.add 0) (sk_committed (st' id)) = sk_held 0 (st' id).
+Proof.
+  intros Hm Hc Ht st' id Hin. subst st'. rewrite (terminates_thm w lg all_io m l Hm Hc Ht). cbn [fst].
+  assert ((ErrorL <? l) = true) as Hhi.
+  { apply Z.ltb_lt. destruct (terminal_level lg l Ht) as [<-|[<-|[<-|[]]]]; unfold ErrorL, DPanicL, PanicL, FatalL; lia. }
+  assert (settled (run_evs lens st (write_events all_io l (appended w (lcore lg) l)) id)) as Hs.
+  { apply (run_write_events_settled l _ Hhi). right. rewrite appended_leaves. exact Hin. }
+  split; [exact Hs|]. symmetry. apply nothing_pending_all_committed. exact Hs.
+Qed.
+
 (* ---------------- zapio.Writer: only when its level is enabled ---------------- *)
 Theorem zapio_partial w lg io l :
   enabled w (lcore lg) l = true -> terminal lg l ->
@@ -273,18 +435,52 @@ Lemma enc_term_spec_term lg l msg :
   enc_term (must_end lg l) (panic_value (must_end lg l) msg) = spec_term lg l msg.
 Proof. unfold spec_term, panic_value. destruct (must_end lg l) as [[| | |k]|]; reflexivity. Qed.
 
-Lemma spec_model_call w lg cl : wf_call cl = true -> spec_call w lg cl (model_call w lg cl) = true.
+Lemma forallb_combine_map {A B} (g : A * B -> bool) (f : A -> B) l :
+  forallb g (combine l (map f l)) = forallb (fun a => g (a, f a)) l.
+Proof. induction l as [|x r IH]; cbn [map combine forallb]; [reflexivity|rewrite IH; reflexivity]. Qed.
+Lemma forallb_is_zero zs : Forall (eq 0) zs -> forallb is_zero (map SZ zs) = true.
+Proof. induction 1 as [|x r Hx _ IH]; [reflexivity|]. subst x. cbn [map forallb is_zero]. exact IH. Qed.
+
+(* the stacks keep their shape from call to call *)
+Definition st_inv (st0 st : sinks) : Prop := forall id, sk_nsinks (st id) = sk_nsinks (st0 id).
+
+Lemma spec_pend_model w lg ids stks l st :
+  st_inv (sk_init ids stks) st ->
+  ((ErrorL <? l) = true -> forall id, In id (delivered w (lcore lg) l) -> settled (st id)) ->
+  spec_pend w lg ids stks l (enc_pend ids st) = true.
 Proof.
-  intros Hwf. unfold spec_call, model_call, front_call. rewrite (log_call_wf w lg cl Hwf). cbn [fst snd].
-  unfold sx_nth. cbn [sx_l nth]. rewrite dec_enc_evs.
-  rewrite writes_of_write_events, hooks_of_write_events, appended_leaves, appended_hooks, !nat_list_eqb_refl.
-  rewrite sync_ok_write_events, enc_term_spec_term, sx_eqb_refl. reflexivity.
+  intros Hinv Hs. unfold spec_pend, enc_pend. cbn [sx_l]. rewrite map_length, Nat.eqb_refl. cbn [andb].
+  rewrite forallb_combine_map. apply forallb_forall. intros id _. cbn [sx_l].
+  rewrite map_length, pending_length, (Hinv id), Nat.eqb_refl. cbn [andb].
+  destruct ((ErrorL <? l) && existsb (Nat.eqb id) (delivered w (lcore lg) l)) eqn:E; [|reflexivity].
+  apply andb_true_iff in E. destruct E as [Hhi He]. apply existsb_exists in He. destruct He as [x [Hin Hx]].
+  apply Nat.eqb_eq in Hx. subst x. apply forallb_is_zero. exact (Hs Hhi id Hin).
 Qed.
 
-Lemma spec_model_calls w lg cls : forallb wf_call cls = true -> spec_calls w lg cls (map (model_call w lg) cls) = true.
+Lemma spec_model_call w lg ids stks st cl :
+  wf_call cl = true -> st_inv (sk_init ids stks) st ->
+  spec_call w lg ids stks cl (fst (model_call w lg ids st cl)) = true /\
+  st_inv (sk_init ids stks) (snd (model_call w lg ids st cl)).
 Proof.
-  induction cls as [|cl r IH]; [reflexivity|]. cbn [forallb map spec_calls]. rewrite andb_true_iff. intros [H1 H2].
-  rewrite (spec_model_call w lg cl H1), (IH H2). reflexivity.
+  intros Hwf Hinv. unfold spec_call, model_call, front_call. rewrite (log_call_wf w lg cl Hwf). cbn [fst snd].
+  split.
+  - unfold sx_nth. cbn [sx_l nth]. rewrite dec_enc_evs.
+    rewrite writes_of_write_events, hooks_of_write_events, appended_leaves, appended_hooks, !nat_list_eqb_refl.
+    rewrite sync_ok_write_events, enc_term_spec_term, sx_eqb_refl. cbn [andb].
+    apply spec_pend_model.
+    + intros id. rewrite run_evs_nsinks. apply Hinv.
+    + intros Hhi id Hin. apply (run_write_events_settled _ _ Hhi). right. rewrite appended_leaves. exact Hin.
+  - intros id. rewrite run_evs_nsinks. apply Hinv.
+Qed.
+
+Lemma spec_model_calls w lg ids stks cls : forall st,
+  forallb wf_call cls = true -> st_inv (sk_init ids stks) st ->
+  spec_calls w lg ids stks cls (model_calls w lg ids st cls) = true.
+Proof.
+  induction cls as [|cl r IH]; intros st Hwf Hinv; [reflexivity|]. cbn [forallb] in Hwf. apply andb_true_iff in Hwf.
+  destruct Hwf as [H1 H2]. cbn [model_calls]. destruct (spec_model_call w lg ids stks st cl H1 Hinv) as [Ha Hb].
+  destruct (model_call w lg ids st cl) as [o st']. cbn [fst snd] in Ha, Hb. cbn [spec_calls].
+  rewrite Ha, (IH st' H2 Hb). reflexivity.
 Qed.
 
 Lemma dec_logger_ext w i : dec_logger increase_ok w i = dec_logger spec_increase_ok w i.
@@ -296,14 +492,16 @@ Proof.
   rewrite <- dec_logger_ext.
   set (w := world_of (sx_nth i 1)). set (lg := dec_logger increase_ok w i).
   set (calls := map dec_call (sx_l (sx_nth i 6))) in *.
-  unfold sx_nth at 1. cbn [sx_l nth]. rewrite (spec_model_calls w lg calls Hwf). cbn [andb].
+  set (stks := dec_stacks i). set (ids := sk_ids (lcore lg) stks).
+  unfold sx_nth at 1. cbn [sx_l nth].
+  rewrite (spec_model_calls w lg ids stks calls (sk_init ids stks) Hwf (fun id => eq_refl)). cbn [andb].
   destruct calls as [|cl [|cl' r]]; try reflexivity.
   destruct (sx_bool (sx_nth i 5)); [|reflexivity].
   unfold sx_nth at 1. cbn [sx_l nth]. rewrite map_sx_n_of_nat.
   cbn [forallb] in Hwf. rewrite andb_true_r in Hwf. rewrite (log_call_wf w lg cl Hwf). cbn [fst].
-  assert (Heq : forall ids, map (fun id => flushed_lines id (write_events all_io (c_level cl) (appended w (lcore lg) (c_level cl))) 0 0) ids =
-                            map (fun id => if ErrorL <? c_level cl then count_writes id (delivered w (lcore lg) (c_level cl)) else 0%nat) ids).
-  { intros ids. apply map_ext. intros id. rewrite flushed_write_events, appended_leaves. reflexivity. }
+  assert (Heq : forall ids', map (fun id => flushed_lines id (write_events all_io (c_level cl) (appended w (lcore lg) (c_level cl))) 0 0) ids' =
+                            map (fun id => if ErrorL <? c_level cl then count_writes id (delivered w (lcore lg) (c_level cl)) else 0%nat) ids').
+  { intros ids'. apply map_ext. intros id. rewrite flushed_write_events, appended_leaves. reflexivity. }
   rewrite Heq. apply nat_list_eqb_refl.
 Qed.
 
